@@ -221,16 +221,20 @@ impl BitFont {
     //const PSF2_STARTSEQ: u8 = 0xFE;
 
     fn load_psf2(font_name: impl Into<String>, data: &[u8]) -> EngineResult<Self> {
+        if data.len() < 32 {
+            return Err(FontError::LengthMismatch(data.len(), 32).into());
+        }
         let version = u32::from_le_bytes(data[4..8].try_into().unwrap());
         if version > BitFont::PSF2_MAXVERSION {
             return Err(FontError::UnsupportedVersion(version).into());
         }
         let headersize = u32::from_le_bytes(data[8..12].try_into().unwrap()) as usize;
         // let flags = u32::from_le_bytes(data[12..16].try_into().unwrap());
-        let length = u32::from_le_bytes(data[16..20].try_into().unwrap()) as i32;
-        let charsize = u32::from_le_bytes(data[20..24].try_into().unwrap()) as i32;
-        if length * charsize + headersize as i32 != data.len() as i32 {
-            return Err(FontError::LengthMismatch(data.len(), (length * charsize) as usize + headersize).into());
+        let length = u32::from_le_bytes(data[16..20].try_into().unwrap()) as usize;
+        let charsize = u32::from_le_bytes(data[20..24].try_into().unwrap()) as usize;
+        let expected = length.checked_mul(charsize).and_then(|size| size.checked_add(headersize));
+        if expected != Some(data.len()) {
+            return Err(FontError::LengthMismatch(data.len(), expected.unwrap_or(usize::MAX)).into());
         }
         let height = u32::from_le_bytes(data[24..28].try_into().unwrap()) as usize;
         let width = u32::from_le_bytes(data[28..32].try_into().unwrap()) as usize;
@@ -239,7 +243,7 @@ impl BitFont {
             name: font_name.into(),
             path_opt: None,
             size: (width, height).into(),
-            length,
+            length: length as i32,
             font_type: BitFontType::BuiltIn,
             glyphs: glyphs_from_u8_data(height, &data[headersize..]),
             checksum: 0,
